@@ -171,6 +171,15 @@ AppJudge(transport, before, done, seg, ctx, rpl, aux) ==
                  [] c.proto = "STUN"  -> IF Len(seg) >= 20
                                          THEN { << "C15", t >> : t \in StunSuccessFails(seg, rpl, ctx.ver, ctx.src, ctx.sport) }
                                          ELSE {}
+                 [] c.proto = "RPC_UDP" -> { << "C16", t >> : t \in RpcReplyShellFails(seg, 0, rpl, 0) }
+                 [] c.proto = "RPC_TCP" -> IF transport = "tcp" /\ Len(before) = 0
+                                           THEN { << "C16", t >> : t \in RpcReplyShellFails(seg, 4, rpl, 4) } ELSE {}
+                 [] c.proto = "SMB1"  -> { << "C17", t >> : t \in S1ReplyShellFails(seg, rpl) }
+                 [] c.proto = "SMB2"  -> { << "C17", t >> : t \in S2ReplyShellFails(seg, rpl) }
+                 [] c.proto = "DNS"   -> IF Len(seg) >= 12 /\ Len(rpl) >= 12
+                                         THEN (IF DnsId(rpl) = DnsId(seg) THEN {} ELSE { << "C14", "dns-id" >> })
+                                              \cup (IF DnsQR(rpl) = 1 THEN {} ELSE { << "C14", "dns-qr" >> })
+                                         ELSE { << "C14", "dns-header" >> }
                  [] OTHER -> {}
           ELSE {})
     (* C10: signature-dispatched responders answer only what the signature set identifies *)
